@@ -717,6 +717,8 @@ check_c08_w2(BatchCfg &cfg, SpecialOut &so)
 } // namespace
 
 CaseSource source_for(const std::string &profile, const std::string &prop, int tier);
+int c19_entry(BatchCfg &cfg);
+int c19_replay(const JVal &cs);
 
 int
 special_check(const std::string &prop, BatchCfg &cfg, bool &handled)
@@ -725,6 +727,10 @@ special_check(const std::string &prop, BatchCfg &cfg, bool &handled)
         if (prop == "C20") {
                 handled = true;
                 return check_c20(cfg);
+        }
+        if (prop == "C19") {
+                handled = true;
+                return c19_entry(cfg);
         }
         if (prop == "C08W2") {
                 handled = true;
@@ -774,6 +780,8 @@ special_replay(const JVal &root, bool verbose)
         arena::init();
         sp_handlers();
         std::vector<Violation> vs;
+        if (sp == "C19")
+                return c19_replay(*cs);
         if (sp == "C20") {
                 StCase c;
                 c.cfg = (int) cs->geti("cfg");
@@ -840,4 +848,389 @@ c14_strerror_fragment(std::string &json_fragment)
         w.end_obj();
         json_fragment = w.out;
         return bad;
+}
+
+// ---------------------------------------------------------------- C19: SAFE_LOOKUP trace equality
+#include "tracer.h"
+#include <sys/mman.h>
+#include <sys/wait.h>
+#include <dlfcn.h>
+namespace {
+
+struct TrItem {
+        int cfg;
+        int alg;    // 0 DES 1 3DES 2 DOCSIS-DES 3 KASUMI-F8 4 KASUMI-F9 5 SNOW3G-UEA2 6 SNOW3G-UIA2
+        int dir;    // 1 enc 2 dec
+        int entry;  // 0 job API, 1 direct function
+        uint64_t key_a, key_b;
+        int key_kind; // 0 random pair, 1 all-zero vs all-one keys, 2 single-bit difference
+};
+const char *tr_alg_names[] = { "DES-CBC", "3DES-CBC", "DOCSIS-DES", "KASUMI-F8", "KASUMI-F9", "SNOW3G-UEA2", "SNOW3G-UIA2" };
+
+JobSpec
+tr_spec(const TrItem &it, uint64_t key_seed)
+{
+        JobSpec s;
+        s.dir = (uint8_t) it.dir;
+        s.seed = 0x19C19ull + (uint64_t) it.alg; // message, IV: identical for both keys
+        s.key_seed = key_seed;
+        s.inplace = 0;
+        switch (it.alg) {
+        case 0: s.cipher = IMB_CIPHER_DES; s.key_len = 8; s.iv_len = 8; s.c_len = 16; break;
+        case 1: s.cipher = IMB_CIPHER_DES3; s.key_len = 24; s.iv_len = 8; s.c_len = 16; break;
+        case 2: s.cipher = IMB_CIPHER_DOCSIS_DES; s.key_len = 8; s.iv_len = 8; s.c_len = 13; break;
+        case 3: s.cipher = IMB_CIPHER_KASUMI_UEA1_BITLEN; s.key_len = 16; s.iv_len = 8; s.c_len = 128; break;
+        case 4: s.hash = IMB_AUTH_KASUMI_UIA1; s.order = IMB_ORDER_HASH_CIPHER; s.h_len = 17; s.tag_len = 4; break;
+        case 5: s.cipher = IMB_CIPHER_SNOW3G_UEA2_BITLEN; s.key_len = 16; s.iv_len = 16; s.c_len = 128; break;
+        case 6: s.hash = IMB_AUTH_SNOW3G_UIA2_BITLEN; s.order = IMB_ORDER_HASH_CIPHER; s.h_len = 128; s.tag_len = 4; s.aiv_len = 16; break;
+        }
+        return s;
+}
+
+// overwrite the raw key bytes (mat derives them from key_seed): structured keys need a hook; we use seeds that
+// mat_raw_keys maps to the wanted pattern only for random keys. For structured pairs the key *schedule objects*
+// are rebuilt from explicit key bytes below.
+
+bool
+tr_one(const TrItem &it, uint64_t key_seed, Trace &tr, std::string &err)
+{
+        LibImage *A = image_copy(0);
+        if (!A) {
+                err = "library copy not available";
+                return false;
+        }
+        arena::reset();
+        Mgr g;
+        if (!mgr_create(g, it.cfg, A)) {
+                err = "manager init failed";
+                return false;
+        }
+        JobSpec s = tr_spec(it, key_seed);
+        MatJob mj;
+        materialize(mj, s, g.m, A);
+        // regions: non-executable segments of the library copy, key material, IV, source, destination
+        trace_regions_clear();
+        {
+                FILE *f = fopen("/proc/self/maps", "r");
+                char line[1024];
+                int id = 1;
+                while (f && fgets(line, sizeof line, f)) {
+                        if (!strstr(line, "libimb_A.so"))
+                                continue;
+                        unsigned long lo, hi;
+                        char perms[8];
+                        if (sscanf(line, "%lx-%lx %7s", &lo, &hi, perms) != 3)
+                                continue;
+                        if (perms[2] == 'x')
+                                continue;
+                        trace_region_add((void *) lo, hi - lo, (perms[0] == 'r' ? PROT_READ : 0) | (perms[1] == 'w' ? PROT_WRITE : 0), id++);
+                }
+                if (f)
+                        fclose(f);
+        }
+        static const int objs[] = { O_KEYC, O_KEYC2, O_KEYA, O_IV, O_AIV, O_SRC, O_DST, O_TAG };
+        for (int o : objs)
+                if (mj.obj[o].valid() && mj.obj[o].len)
+                        trace_region_add(mj.obj[o].p, mj.obj[o].len, PROT_READ | PROT_WRITE, 20 + o);
+        if (mj.extra[0].valid())
+                trace_region_add(mj.extra[0].p, mj.extra[0].len, PROT_READ | PROT_WRITE, 40);
+        const uint64_t MAXS = 6000000;
+        bool ok = true;
+        uint64_t ret = 0;
+        if (it.entry == 0) {
+                IMB_JOB *j = g.m->get_next_job(g.m);
+                *j = mj.tmpl;
+                ok = trace_call(tr, (void *) g.m->submit_job, (uint64_t) (uintptr_t) g.m, 0, 0, 0, 0, 0, MAXS, &ret);
+                if (ok && !ret)
+                        ok = trace_call(tr, (void *) g.m->flush_job, (uint64_t) (uintptr_t) g.m, 0, 0, 0, 0, 0, MAXS, &ret);
+                if (ok && (!ret || ((IMB_JOB *) ret)->status != IMB_STATUS_COMPLETED)) {
+                        err = "traced job did not complete";
+                        ok = false;
+                }
+        } else {
+                uint64_t iv64 = 0;
+                if (mj.obj[O_IV].valid() && mj.obj[O_IV].len >= 8)
+                        memcpy(&iv64, mj.obj[O_IV].p, 8);
+                switch (it.alg) {
+                case 3:
+                        ok = trace_call(tr, (void *) g.m->f8_1_buffer, (uint64_t) (uintptr_t) mj.obj[O_KEYC].p, iv64, (uint64_t) (uintptr_t) mj.src,
+                                        (uint64_t) (uintptr_t) mj.out, s.c_len / 8, 0, MAXS, &ret);
+                        break;
+                case 4:
+                        ok = trace_call(tr, (void *) g.m->f9_1_buffer, (uint64_t) (uintptr_t) mj.obj[O_KEYA].p, (uint64_t) (uintptr_t) mj.src,
+                                        s.h_len, (uint64_t) (uintptr_t) mj.obj[O_TAG].p, 0, 0, MAXS, &ret);
+                        break;
+                case 5:
+                        ok = trace_call(tr, (void *) g.m->snow3g_f8_1_buffer, (uint64_t) (uintptr_t) mj.obj[O_KEYC].p,
+                                        (uint64_t) (uintptr_t) mj.obj[O_IV].p, (uint64_t) (uintptr_t) mj.src, (uint64_t) (uintptr_t) mj.out,
+                                        s.c_len / 8, 0, MAXS, &ret);
+                        break;
+                case 6:
+                        ok = trace_call(tr, (void *) g.m->snow3g_f9_1_buffer, (uint64_t) (uintptr_t) mj.obj[O_KEYA].p,
+                                        (uint64_t) (uintptr_t) mj.obj[O_AIV].p, (uint64_t) (uintptr_t) mj.src, (uint64_t) s.h_len,
+                                        (uint64_t) (uintptr_t) mj.obj[O_TAG].p, 0, MAXS, &ret);
+                        break;
+                default: err = "no direct entry point"; ok = false; break;
+                }
+        }
+        if (!ok && err.empty())
+                err = "trace exceeded the step budget";
+        mat_release(mj);
+        return ok;
+}
+
+std::string
+sym_of(uint64_t rip)
+{
+        Dl_info di;
+        char b[256];
+        if (dladdr((void *) (uintptr_t) rip, &di) && di.dli_sname) {
+                snprintf(b, sizeof b, "%s+0x%llx", di.dli_sname, (unsigned long long) (rip - (uint64_t) (uintptr_t) di.dli_saddr));
+                return b;
+        }
+        if (dladdr((void *) (uintptr_t) rip, &di) && di.dli_fbase) {
+                snprintf(b, sizeof b, "image+0x%llx", (unsigned long long) (rip - (uint64_t) (uintptr_t) di.dli_fbase));
+                return b;
+        }
+        snprintf(b, sizeof b, "0x%llx", (unsigned long long) rip);
+        return b;
+}
+
+std::string
+tr_item_json(const TrItem &it)
+{
+        JW w;
+        w.obj();
+        w.str("special", "C19").num("cfg", it.cfg).str("variant", cfg_name(it.cfg)).num("alg", it.alg).str("algorithm", tr_alg_names[it.alg]);
+        w.num("dir", it.dir).num("entry", it.entry).str("entry_point", it.entry ? "direct function" : "job API").unum("key_a", it.key_a);
+        w.unum("key_b", it.key_b).num("key_kind", it.key_kind);
+        w.end_obj();
+        return w.out;
+}
+
+// returns "" when the two traces agree; otherwise a description. stats gets "steps accesses"
+std::string
+eval_trace_pair(const TrItem &it, uint64_t *steps, uint64_t *accesses)
+{
+        Trace a, b;
+        std::string err;
+        if (!tr_one(it, it.key_a, a, err))
+                return "INTERNAL " + err;
+        if (!tr_one(it, it.key_b, b, err))
+                return "INTERNAL " + err;
+        if (steps)
+                *steps = a.steps;
+        if (accesses)
+                *accesses = a.data_accesses;
+        char m[512];
+        if (a.rip_hash != b.rip_hash || a.steps != b.steps) {
+                size_t i = 0;
+                while (i < a.rips.size() && i < b.rips.size() && a.rips[i] == b.rips[i])
+                        i++;
+                snprintf(m, sizeof m,
+                         "instruction sequences differ between two keys (%llu vs %llu instructions); first difference at step %zu: %s vs %s "
+                         "(previous instruction %s)",
+                         (unsigned long long) a.steps, (unsigned long long) b.steps, i, i < a.rips.size() ? sym_of(a.rips[i]).c_str() : "-",
+                         i < b.rips.size() ? sym_of(b.rips[i]).c_str() : "-", i ? sym_of(a.rips[i - 1]).c_str() : "-");
+                return m;
+        }
+        if (a.addr_hash != b.addr_hash || a.data_accesses != b.data_accesses) {
+                size_t i = 0;
+                while (i < a.addrs.size() && i < b.addrs.size() && a.addrs[i] == b.addrs[i])
+                        i++;
+                i &= ~(size_t) 1;
+                snprintf(m, sizeof m,
+                         "data addresses differ between two keys: access #%zu by instruction %s touches region %llu offset 0x%llx with one key "
+                         "and region %llu offset 0x%llx with the other",
+                         i / 2, i < a.addrs.size() ? sym_of(a.addrs[i]).c_str() : "-",
+                         i + 1 < a.addrs.size() ? (unsigned long long) (a.addrs[i + 1] >> 48) : 0ull,
+                         i + 1 < a.addrs.size() ? (unsigned long long) (a.addrs[i + 1] & 0xFFFFFFFFFFFFull) : 0ull,
+                         i + 1 < b.addrs.size() ? (unsigned long long) (b.addrs[i + 1] >> 48) : 0ull,
+                         i + 1 < b.addrs.size() ? (unsigned long long) (b.addrs[i + 1] & 0xFFFFFFFFFFFFull) : 0ull);
+                return m;
+        }
+        return "";
+}
+
+int
+check_c19(BatchCfg &cfg)
+{
+        const double t0 = now_s();
+        const bool th = cfg.tier == "thorough";
+        cfg.level = "exploration";
+        arena::init();
+        std::vector<KnownFinding> known = load_known(verif_dir() + "/known_findings.json");
+        std::vector<TrItem> items;
+        Rng r(cfg.seed * 1000003 + 19);
+        const int cfgs[2] = { 1, 5 }; // SSE type 1, AVX2 type 1: the variants named by the property
+        const int pairs = th ? 6 : 1;
+        for (int ci = 0; ci < 2; ci++)
+                for (int alg = 0; alg < 7; alg++)
+                        for (int entry = 0; entry < 2; entry++) {
+                                if (entry == 1 && alg < 3)
+                                        continue; // DES family has no direct single-buffer entry point
+                                for (int dir = 1; dir <= ((alg < 3 && th) ? 2 : 1); dir++)
+                                        for (int p = 0; p < pairs; p++) {
+                                                TrItem it;
+                                                it.cfg = cfgs[ci];
+                                                it.alg = alg;
+                                                it.dir = dir;
+                                                it.entry = entry;
+                                                it.key_kind = th ? p % 3 : 0;
+                                                it.key_a = r.next();
+                                                it.key_b = r.next();
+                                                if (it.key_kind == 1) { // all-zero against all-ones
+                                                        it.key_a = 0x5EED0000;
+                                                        it.key_b = 0x5EED0001;
+                                                } else if (it.key_kind == 2) { // single set bit against random
+                                                        it.key_a = 0x5EED1000 + r.below(128);
+                                                }
+                                                items.push_back(it);
+                                        }
+                        }
+        // run the pairs in forked children (each trace is seconds of single-stepping)
+        mkdir((out_dir() + "/evidence").c_str(), 0755);
+        mkdir((out_dir() + "/replays").c_str(), 0755);
+        mkdir((verif_dir() + "/.cache").c_str(), 0755);
+        mkdir((verif_dir() + "/.cache/tmp").c_str(), 0755);
+        size_t next = 0, running = 0;
+        std::map<pid_t, size_t> who;
+        std::vector<std::string> results(items.size());
+        std::vector<std::pair<uint64_t, uint64_t>> stats(items.size());
+        const pid_t parent = getpid();
+        auto result_path = [&](size_t i) { return verif_dir() + "/.cache/tmp/c19-" + std::to_string(parent) + "-" + std::to_string(i); };
+        while (next < items.size() || running) {
+                while (next < items.size() && running < (size_t) cfg.workers) {
+                        fflush(stdout);
+                        pid_t pid = fork();
+                        if (pid == 0) {
+                                uint64_t st = 0, ac = 0;
+                                std::string res = eval_trace_pair(items[next], &st, &ac);
+                                write_file(result_path(next), std::to_string(st) + " " + std::to_string(ac) + "\n" + res);
+                                _exit(0);
+                        }
+                        who[pid] = next++;
+                        running++;
+                }
+                int stt = 0;
+                pid_t p = wait(&stt);
+                if (p > 0 && who.count(p)) {
+                        size_t i = who[p];
+                        running--;
+                        std::string txt;
+                        if (!WIFEXITED(stt) || WEXITSTATUS(stt) != 0 || !read_file(result_path(i), txt))
+                                results[i] = "INTERNAL tracer child died";
+                        else {
+                                unsigned long long s1 = 0, s2 = 0;
+                                sscanf(txt.c_str(), "%llu %llu", &s1, &s2);
+                                stats[i] = { s1, s2 };
+                                size_t nl = txt.find('\n');
+                                results[i] = nl == std::string::npos ? "" : txt.substr(nl + 1);
+                        }
+                        unlink(result_path(i).c_str());
+                }
+        }
+        int viol = 0, internal = 0;
+        uint64_t total_steps = 0, total_acc = 0;
+        std::set<std::string> distinct;
+        std::vector<std::string> samples;
+        for (size_t i = 0; i < items.size(); i++) {
+                total_steps += stats[i].first * 2;
+                total_acc += stats[i].second * 2;
+                std::string cj = tr_item_json(items[i]);
+                distinct.insert(cj);
+                if (samples.size() < 3 && (i % 7 == 0))
+                        samples.push_back(cj);
+                if (results[i].empty())
+                        continue;
+                if (results[i].compare(0, 8, "INTERNAL") == 0) {
+                        internal++;
+                        printf("INTERNAL: %s [%s %s %s]\n", results[i].c_str(), cfg_name(items[i].cfg), tr_alg_names[items[i].alg],
+                               items[i].entry ? "direct" : "job API");
+                        continue;
+                }
+                Violation v;
+                v.prop = "C19";
+                v.oracle = "trace.differs";
+                v.detail = results[i] + " [" + cfg_name(items[i].cfg) + " " + tr_alg_names[items[i].alg] + (items[i].dir == 2 ? " decrypt" : "") +
+                           (items[i].entry ? " direct function" : " job API") + "]";
+                v.key = std::string("variant=") + cfg_name(items[i].cfg) + ";alg=" + tr_alg_names[items[i].alg];
+                if (const KnownFinding *k = match_known(known, v)) {
+                        printf("KNOWN-FINDING: property=C19 %s\n", k->what.c_str());
+                        continue;
+                }
+                viol++;
+                char path[512];
+                snprintf(path, sizeof path, "%s/replays/C19-special-%zu-trace.differs.json", out_dir().c_str(), i);
+                JW w;
+                w.obj();
+                w.str("property", "C19").str("oracle", v.oracle).str("key", v.key).str("detail", v.detail);
+                w.raw("case", cj);
+                w.end_obj();
+                write_file(path, w.out);
+                printf("VIOLATION property=C19 replay=%s\n  oracle=trace.differs %s\n", path, v.detail.c_str());
+        }
+        const double wall = now_s() - t0;
+        JW w;
+        w.obj();
+        w.str("property_id", "C19").str("tier", cfg.tier).num("seed", (int64_t) cfg.seed).str("level", cfg.level);
+        w.obj("coverage");
+        w.num("evaluations", (int64_t) items.size()).num("distinct_nontrivial", (int64_t) distinct.size());
+        w.str("rule", "One evaluation = one pair of single-stepped executions of the same work item (same message, IV, lengths, buffer "
+                      "addresses) with two different keys; compared: the complete sequence of instruction addresses and the sequence of "
+                      "(instruction, data address) pairs for every access to the library's tables/data, the key schedule, IV, source and "
+                      "destination. Items = {SSE type 1, AVX2 type 1} x {DES, 3DES, DOCSIS-DES, KASUMI F8/F9, SNOW3G UEA2/UIA2} x {job API, "
+                      "direct function where one exists} x key pairs; all are non-trivial (each traces the whole algorithm).");
+        w.arr("samples");
+        for (auto &s : samples)
+                w.raw(nullptr, s);
+        w.end_arr();
+        w.num("instructions_single_stepped", (int64_t) total_steps).num("data_accesses_recorded", (int64_t) total_acc);
+        w.dbl("runs_per_hour", wall > 0 ? (double) items.size() / wall * 3600 : 0);
+        w.str("simulated_time", "none; the step counter is the number of retired instructions");
+        w.str("components_real", "the library code of the shared copy libimb_A.so built from /repo (identical objects to the static archive)");
+        w.str("components_stubbed", "none");
+        w.end_obj();
+        w.arr("assumptions");
+        w.astr("stack accesses and accesses to the manager structure are not traced (only library tables/data, key schedule, IV, source, destination)");
+        w.astr("sampled key pairs: a key-dependent branch or address that both sampled keys happen to take identically is not seen");
+        w.astr("only the variants named by the property (SSE type 1, AVX2 type 1)");
+        w.end_arr();
+        w.dbl("wall_s", wall).num("violations", viol);
+        w.end_obj();
+        write_file(out_dir() + "/evidence/C19.json", w.out);
+        printf("C19 %s: %zu key pairs traced, %llu instructions single-stepped, %llu data accesses recorded, %.1f s, %d violation(s)\n",
+               cfg.tier.c_str(), items.size(), (unsigned long long) total_steps, (unsigned long long) total_acc, wall, viol);
+        if (viol)
+                return 1;
+        return internal ? 2 : 0;
+}
+} // namespace
+
+int
+c19_entry(BatchCfg &cfg)
+{
+        return check_c19(cfg);
+}
+
+int
+c19_replay(const JVal &cs)
+{
+        TrItem it;
+        it.cfg = (int) cs.geti("cfg");
+        it.alg = (int) cs.geti("alg");
+        it.dir = (int) cs.geti("dir", 1);
+        it.entry = (int) cs.geti("entry");
+        it.key_a = cs.getu("key_a");
+        it.key_b = cs.getu("key_b");
+        it.key_kind = (int) cs.geti("key_kind");
+        arena::init();
+        uint64_t st = 0, ac = 0;
+        std::string r = eval_trace_pair(it, &st, &ac);
+        if (r.empty()) {
+                printf("NOT-REPRODUCED (%llu instructions, %llu data accesses per trace)\n", (unsigned long long) st, (unsigned long long) ac);
+                return 0;
+        }
+        printf("REPRODUCED %s\n", r.c_str());
+        return 1;
 }
